@@ -18,6 +18,14 @@ EXH_QUICK = [
     ("n4-claims", 4, dict(Proposers=P1, MaxProp=1, MaxEnd=0, MaxCom=1, MaxForged=1, MaxClaims=3, ForgePok="TRUE")),
     ("n4-endorse", 4, dict(Proposers=P1, MaxProp=1, MaxEnd=3, MaxCom=0, MaxForged=1, MaxClaims=0, ForgePok="FALSE")),
 ]
+# N > 3C+1 (the quorum N-(N-1)/3 exceeds 2C+1): all-valid messages in a reduced universe, so that the fallback of commitDone
+# (pool signatures) and getCommitConsensus are exercised around their thresholds for these (N, C) too
+EXH_QUICK += [
+    ("n6-sigs", 6, dict(Proposers=P1, MaxProp=1, MaxEnd=4, MaxCom=0, MaxForged=0, MaxClaims=0, ForgePok="FALSE", Canonical="TRUE")),
+    ("n6-commit", 6, dict(Proposers=P1, MaxProp=1, MaxEnd=1, MaxCom=1, MaxForged=0, MaxClaims=4, ForgePok="FALSE", Canonical="TRUE")),
+    ("n8-sigs", 8, dict(Proposers=P1, MaxProp=1, MaxEnd=6, MaxCom=0, MaxForged=0, MaxClaims=0, ForgePok="FALSE", Canonical="TRUE")),
+    ("n8-commit", 8, dict(Proposers=P1, MaxProp=1, MaxEnd=1, MaxCom=1, MaxForged=0, MaxClaims=6, ForgePok="FALSE", Canonical="TRUE")),
+]
 EXH_THOROUGH = [
     ("n4-commit2", 4, dict(Proposers=P1, MaxProp=1, MaxEnd=0, MaxCom=2, MaxForged=1, MaxClaims=2, ForgePok="FALSE")),
     ("n4-commit3", 4, dict(Proposers=P1, MaxProp=0, MaxEnd=0, MaxCom=3, MaxForged=1, MaxClaims=1, ForgePok="FALSE")),
@@ -36,6 +44,8 @@ def cfg_text(n, c, ov, design=False, edges=True):
     l = ["SPECIFICATION Spec", "CONSTANTS", "  N = %d" % n, "  C = %d" % c, "  EndorserSet <- EndorserSet%d" % n,
          "  QM <- QM%d" % n, "  QS <- QS%d" % n, "  TE <- TE%d" % n,
          "  SW_Verify = %s" % sw, "  SW_PerBlock = %s" % sw, "  SW_Proposer = %s" % sw]
+    ov = dict(ov)
+    ov.setdefault("Canonical", "FALSE")
     for k, v in ov.items():
         l.append("  %s %s %s" % (k, "<-" if k == "Proposers" else "=", v))
     l += ["VIEW view", "INVARIANTS TypeOK" + (" Inv_CommitSound" if design else ""), "CHECK_DEADLOCK FALSE"]
